@@ -508,7 +508,7 @@ static bool build(const std::string &tok, const std::string &prefix, const std::
         case 'q': if(a.size() != 1 || rest != "q") return false; break;
         case 'i': case 'c': v.i = (int32_t)strtol(a.c_str() + 1, NULL, 10); tags += a[0]; args.push_back(v); break;
         case 'f': { uint32_t b = (uint32_t)strtoul(a.c_str() + 1, NULL, 16); memcpy(&v.f, &b, 4); tags += 'f'; args.push_back(v); break; }
-        case 'T': case 'F': if(a.size() != 1) return false; tags += a[0]; args.push_back(v); break;
+        case 'T': case 'F': if(a.size() != 1) return false; tags += a[0]; break;   // no entry in the argument array
         case 's': case 'S': {
             bytes b;
             if(!unhex(a.substr(1), b)) return false;
@@ -523,6 +523,7 @@ static bool build(const std::string &tok, const std::string &prefix, const std::
         default: return false;
         }
     }
+    args.push_back(rtosc_arg_t());      // never hand a NULL array over
     size_t need = rtosc_amessage(NULL, 0, path.c_str(), tags.c_str(), args.data());
     buf.assign(need, 0);
     return rtosc_amessage(buf.data(), need, path.c_str(), tags.c_str(), args.data()) == need;
